@@ -131,6 +131,12 @@ func ruleEvict(cx *Ctx) {
 func ruleC20Load(cx *Ctx) {
 	const rule = "C20.load"
 	cx.R.Rule(rule, 1, "wrapLoad records exactly one of load success / failure on every path after the dispatch (including the path that re-raises a loader panic); success iff the error is nil or ErrNotFound; loaders are dispatched only inside wrapLoad")
+	if cx.P.Func("", "cache", "wrapLoad") == nil {
+		if rec := loadRecorder(cx); rec != nil {
+			ruleC20LoadSplit(cx, rule, rec)
+			return
+		}
+	}
 	spec := opSpec{"wrapLoad", "cache", "wrapLoad", nil, "wrapLoad", nil}
 	r := cx.runOp(rule, spec)
 	if r == nil {
@@ -314,4 +320,149 @@ func ruleC20Load(cx *Ctx) {
 			}
 		})
 	}
+}
+
+
+// loadRecorder: when the timing wrapper around a dispatch was split into a start / finish pair, the finishing half: the
+// single method of cache that records load success / failure and takes the dispatch's error as a parameter.
+func loadRecorder(cx *Ctx) *ssa.Function {
+	var out []*ssa.Function
+	for _, fn := range cx.P.FuncsOfPkg("") {
+		if fn.Parent() != nil || fn.Signature.Recv() == nil || namedTypeName(derefType(fn.Signature.Recv().Type())) != "cache" {
+			continue
+		}
+		rec := false
+		allInstrs(fn, func(in ssa.Instruction) {
+			if n := invokeName(in); n == "RecordLoadSuccess" || n == "RecordLoadFailure" {
+				rec = true
+			}
+		})
+		hasErr := false
+		for _, p := range fn.Params {
+			if p.Type().String() == "error" {
+				hasErr = true
+			}
+		}
+		if rec && hasErr {
+			out = append(out, fn)
+		}
+	}
+	if len(out) == 1 {
+		return out[0]
+	}
+	return nil
+}
+
+// ruleC20LoadSplit: C20.load (and C10.wrapload) for the split form: startTime := c.startLoad(); err := dispatch(...);
+// err = c.finishLoad(startTime, err).
+func ruleC20LoadSplit(cx *Ctx, rule string, rec *ssa.Function) {
+	name := funcName(rec)
+	var errP *ssa.Parameter
+	for _, p := range rec.Params {
+		if p.Type().String() == "error" {
+			errP = p
+		}
+	}
+	ps := newPathSum(cx)
+	outs := ps.Run(rec, nil)
+	a := newAgg(cx, rule, name, cx.P.Pos(rec.Pos()))
+	res := "param:" + pname(errP)
+	for _, o := range outs {
+		if o.Cut {
+			continue
+		}
+		succ, fail := 0, 0
+		for _, e := range allEvents(o, "Stat") {
+			switch e.Args[0] {
+			case "RecordLoadSuccess":
+				succ++
+			case "RecordLoadFailure":
+				fail++
+			}
+		}
+		kind := "return"
+		if o.Panic {
+			kind = "re-panic"
+		}
+		a.check(kind+": one load record", succ+fail == 1, "exactly one load outcome is recorded per dispatch", fmt.Sprintf("%d success, %d failure", succ, fail), o)
+		errNil, ek := predOf(o, "IsNil("+res+")")
+		nf, nfk := predOf(o, "IsNotFound("+res+")")
+		if ek && errNil || (nfk && nf) {
+			a.check("nil/not-found error: success", succ == 1, "no error or ErrNotFound counts as a successful load", fmt.Sprintf("%d success, %d failure", succ, fail), o)
+		} else if ek && !errNil && nfk && !nf {
+			a.check("other error: failure", fail == 1, "any other error counts as a failed load", fmt.Sprintf("%d success, %d failure", succ, fail), o)
+		}
+		if !o.Panic && len(o.Rets) == 1 {
+			okRet := o.Rets[0] == res || (o.Rets[0] == "nil" && ek && errNil)
+			a.check("returns the dispatch's error", okRet, "the finishing half returns the error it was given unchanged", o.Rets[0], o)
+		}
+	}
+	a.flush()
+	doCall := cx.need(rule, "", "group", "doCall")
+	doBulk := cx.need(rule, "", "group", "doBulkCall")
+	if doCall == nil || doBulk == nil {
+		return
+	}
+	for _, d := range []*ssa.Function{doCall, doBulk} {
+		dr := cx.runOp(rule, opSpec{cname(d), "group", cname(d), nil, cname(d), nil})
+		if dr == nil {
+			continue
+		}
+		da := newAgg(cx, rule, funcName(d), cx.P.Pos(d.Pos()))
+		loadParam := pname(bparam(d, 3))
+		for _, o := range dr.outs {
+			if o.Cut {
+				continue
+			}
+			n := 0
+			for _, e := range allEvents(o, "UserCall") {
+				if e.Args[0] == loadParam {
+					n++
+				}
+			}
+			da.check("loader invoked exactly once", n == 1, "every path of the dispatch function calls the load function exactly once (one recorded load = one loader invocation)", fmt.Sprintf("%d invocation(s)", n), o)
+		}
+		da.flush()
+	}
+	// every dispatch is followed, on every returning path, by exactly one call of the recorder with the dispatch's error
+	errIdx := -1
+	for i, p := range rec.Params {
+		if p == errP {
+			errIdx = i
+		}
+	}
+	nd := 0
+	for _, fn := range cx.P.FuncsOfPkg("") {
+		fn := fn
+		allInstrs(fn, func(in ssa.Instruction) {
+			if !(isCallTo(in, doCall) || isCallTo(in, doBulk)) {
+				return
+			}
+			nd++
+			dv, _ := in.(ssa.Value)
+			isRec := func(x ssa.Instruction) int {
+				if isCallTo(x, rec) {
+					if cc := callCommon(x); errIdx < len(cc.Args) && cc.Args[errIdx] == dv {
+						return 1
+					}
+				}
+				return 0
+			}
+			pt := ptOf(in)
+			pt.I++
+			ok, n := true, 0
+			var wit []string
+			for _, ex := range CountOnPaths(fn, pt, isRec, nil) {
+				if _, isRet := ex.Exit.(*ssa.Return); !isRet {
+					continue
+				}
+				n++
+				if ex.Count != 1 {
+					ok, wit = false, ex.Witness
+				}
+			}
+			cx.R.Check(ok && n > 0, rule, funcName(fn), fmt.Sprintf("dispatch #%d recorded once", nd), cx.P.where(in), "after a dispatch every returning path records its outcome exactly once, with the dispatch's error (every dispatch is timed and counted)", wit...)
+		})
+	}
+	cx.R.Check(nd >= 3, rule, "cache", "dispatch sites found", "-", fmt.Sprintf("%d", nd))
 }
